@@ -15,7 +15,9 @@ def _is_tensor(x):
 
 def array(x, dtype=None):
     if isinstance(x, Sym) or _is_tensor(x):
-        return x
+        from ..sym import cast_to
+
+        return x.astype(dtype) if _is_tensor(x) else cast_to(x, dtype)
     if isinstance(x, bool):
         return Sym(z3.BoolVal(x))
     if isinstance(x, int):
@@ -311,13 +313,26 @@ def isfinite(x):
 
 
 def zeros(shape, dtype=None):
+    from ..sym import dtype_kind
     from ..tensor import Tensor
 
     if isinstance(shape, (int, Sym)) or isinstance(shape, z3.ExprRef):
         shape = (shape,)
+    k = dtype_kind(dtype)
+    zero = z3.IntVal(0) if k == "int" else (z3.BoolVal(False) if k == "bool" else z3.RealVal(0))
     if not shape:
-        return Sym(z3.RealVal(0))
-    return Tensor(tuple(shape), lambda idx: z3.RealVal(0))
+        return Sym(zero)
+    return Tensor(tuple(shape), lambda idx: zero)
+
+
+def zeros_like(x, dtype=None, shape=None):
+    """zeros with the shape (or the given shape) and the DTYPE of x (or the given dtype)"""
+    if dtype is None:
+        srt = x.elem_sort() if _is_tensor(x) else (_lift(x).sort() if isinstance(x, (Sym, int, float, bool)) else None)
+        dtype = "int" if srt == z3.IntSort() else ("bool" if srt == z3.BoolSort() else "float")
+    if shape is None:
+        shape = x.shape if hasattr(x, "shape") and x.shape else ()
+    return zeros(tuple(shape) if shape != () else (), dtype=dtype)
 
 
 def ones(shape, dtype=None):
@@ -420,7 +435,7 @@ def namespace(**extra):
     ns = StubNS(
         result_type=result_type, issubdtype=issubdtype, floating="floating", integer="integer", inexact="inexact", complexfloating="complexfloating", number="number",
         array=array, asarray=asarray, shape=shape, ndim=ndim, where=where, logical_xor=logical_xor, take=take, sum=sum, any=any,
-        minimum=minimum, maximum=maximum, log=log, exp=exp, add=add, ndarray=object, arange=arange, zeros=zeros, ones=ones, mean=mean, repeat=repeat, nan=float('nan'), inf=INF, isfinite=isfinite, isinf=lambda x: ~isfinite(x), cumsum=cumsum, searchsorted=searchsorted, diag=diag, linalg=StubNS(inv=inv, slogdet=slogdet, cholesky=cholesky), zeros_like=lambda x: zeros(x.shape) if hasattr(x, 'shape') and x.shape else Sym(z3.RealVal(0)), concatenate=concatenate,
+        minimum=minimum, maximum=maximum, log=log, exp=exp, add=add, ndarray=object, arange=arange, zeros=zeros, ones=ones, mean=mean, repeat=repeat, nan=float('nan'), inf=INF, isfinite=isfinite, isinf=lambda x: ~isfinite(x), cumsum=cumsum, searchsorted=searchsorted, diag=diag, linalg=StubNS(inv=inv, slogdet=slogdet, cholesky=cholesky), zeros_like=zeros_like, concatenate=concatenate,
         float32="float32", int32="int32", bool_="bool", pi=3.141592653589793,
     )
     for k, v in extra.items():
